@@ -6,20 +6,20 @@ CONSTANTS Contracts <- McOne
  InitBal <- McInitBal1
  InitStor <- McInitStor1
  Kinds <- McKindsC
- Vals = {1}
- SendVals = {0, 1}
- SuicideTo = {"U"}
- G0 = 3
+ Vals <- McNoSlots
+ SendVals = {0}
+ SuicideTo <- McNoSlots
+ G0 = 6
  MaxDepth = 3
- MaxFan = 2
+ MaxFan = 1
  DepthLimit = 1024
  DevS = FALSE
  DevG = FALSE
- JumpDests = {}
+ JumpDests = {"next", "far", "s0", "s1", "s2"}
  ShapeAt <- McShapeAt
- DevJ = FALSE
+ DevJ = TRUE
  DevC = FALSE
 VIEW ViewNoHist
-INVARIANTS StaticIsNoop GasWithinSupplied DepthBound NoCrash JournalMarksOrdered CodeOnlyByCreation
-PROPERTIES JumpIsFrameLocal FailedFrameIsNoop OkKeepsEffects GasNeverGrows CollisionIsNoop
+INVARIANTS StaticIsNoop GasWithinSupplied DepthBound JournalMarksOrdered
+PROPERTIES JumpIsFrameLocal
 CHECK_DEADLOCK FALSE
